@@ -2,7 +2,7 @@
    Print Assumptions.  hwf = every reference stored in a heap cell points to an allocated cell of the right kind;
    swf = the stream record points to an indexer and a thermal condition; both are invariants of every reachable
    state (copy_lemma, mut_local, link_lemma, unlink_lemma, flow_proxy_lemma re-establish them). *)
-From V Require Import Common.NumFacts C13.Model C13.Proofs.
+From V Require Import Common.NumFacts C13.Model C13.Proofs C13.Hist C13.CopyLike C13.Reduce.
 Local Open Scope nat_scope.
 
 (* a copy has the same flows, phase(s), T and P; the original is unchanged; nothing is shared *)
@@ -98,6 +98,30 @@ Theorem C13_link_view_exact : forall st i j fl ph tp st' s o,
 Proof. exact link_view. Qed.
 Print Assumptions C13_link_view_exact.
 
+(* ---------- the view-dict layer over whole histories ---------- *)
+(* in every state reachable from the empty store by ANY history of operations, every stream points to an allocated
+   indexer and every view-dict binding is about an allocated indexer ... *)
+Theorem C13_view_bindings_allocated : forall pk mw ops, inv (fst (run pk mw init ops)).
+Proof. intros pk mw ops. apply inv_run. apply inv_init. Qed.
+Print Assumptions C13_view_bindings_allocated.
+
+(* ... hence an indexer allocated later (by copy, flow_proxy, a phase conversion, from_data) has no binding *)
+Theorem C13_fresh_indexer_no_view : forall st r, inv st -> length (hp st) <= r -> lookup r (cmap st) = None.
+Proof. exact fresh_no_view. Qed.
+Print Assumptions C13_fresh_indexer_no_view.
+
+(* copy in any reachable state: the copy has no cached view; its mass view is built over its own rows, none of which
+   the original reaches (so the history theorem C13_copy_disjoint covers what imass reads as well) *)
+Theorem C13_copy_view_independent : forall pk mw st i st' s,
+  inv st -> hwf (hp st) -> swf (hp st) s -> nth_error (ss st) i = Some s ->
+  step pk mw st (OCopy i) = (st', None) ->
+  exists c, ss st' = ss st ++ [c] /\ view_of st' (imol c) = None /\
+    snd (by_mass st' c) = data_rows (hp st') c /\
+    disjoint (footprint (hp st') s) (footprint (hp st') c) /\
+    (forall r, In r (snd (by_mass st' c)) -> In r (footprint (hp st') c) /\ ~ In r (footprint (hp st') s)).
+Proof. exact copy_view. Qed.
+Print Assumptions C13_copy_view_independent.
+
 (* the full statement: after unlink, stream i shares nothing with ANY other stream object of the store *)
 Definition C13_unlink_sep_statement : Prop :=
   forall pk mw st i j st' a b, hwf (hp st) -> Forall (swf (hp st)) (ss st) -> i <> j ->
@@ -126,20 +150,24 @@ Proof.
 Qed.
 Print Assumptions C13_unlink_sep_refuted.
 
-(* copy_like, full statement: for every kind x kind x package combination (streams sharing nothing, lower-case
-   phases, every chemical with a non-zero source flow present in the target package), afterwards the flow of every
-   chemical in every phase, T and P are those of the source *)
-Definition C13_copy_like_eq_statement : Prop :=
-  forall pk h a b h' a' e, hwf h -> swf h a -> swf h b -> disjoint (footprint h a) (footprint h b) ->
-    plain h a -> plain h b ->
-    (forall p c, ~ (phase_flow pk h b p c == 0)%Q -> In c (chems pk (stream_pkg h a))) ->
-    copy_like pk h a b = (h', a', e) ->
-    e = None /\ (forall p c, (phase_flow pk h' a' p c == phase_flow pk h b p c)%Q) /\
-    rdtc h' (tc a') = rdtc h (tc b) /\ obs h' b = obs h b.
+(* copy_like for EVERY kind x kind x package combination: Stream<-Stream, Stream<-MultiStream (one phase: through
+   the view of that phase; two or more: the stream becomes a MultiStream), MultiStream<-Stream (with phase expansion
+   when the target lacks the phase), MultiStream<-MultiStream (equal or different phase sets), same and other package.
+   Preconditions: well-formed heap; both streams well formed (stream_ok: lower-case phases in a sorted tuple, rows
+   distinct and aligned with the phases); they share nothing; and (superset precondition) no row of the source has a
+   non-zero entry for a chemical the target package lacks.  Afterwards the flow of every chemical in every phase,
+   T and P are those of the source, and the source is unchanged. *)
+Theorem C13_copy_like_eq : forall pk h a b h' a' e,
+  hwf h -> swf h a -> swf h b -> stream_ok h a -> stream_ok h b -> disjoint (footprint h a) (footprint h b) ->
+  (stream_pkg h a <> stream_pkg h b -> forall x, In x (data_rows h b) ->
+     missing (chems pk (stream_pkg h a)) (chems pk (stream_pkg h b)) (rdvec h x) = false) ->
+  copy_like pk h a b = (h', a', e) ->
+  e = None /\ (forall p c, (phase_flow pk h' a' p c == phase_flow pk h b p c)%Q) /\
+  rdtc h' (tc a') = rdtc h (tc b) /\ obs h' b = obs h b.
+Proof. exact copy_like_all. Qed.
+Print Assumptions C13_copy_like_eq.
 
-(* proved part: Stream <- Stream, same or different property package (the chemical remapping by CAS).  The
-   other three kind combinations (MultiStream source or target, one-phase MultiStream, phase expansion) are
-   transcribed in Model.v and tied to the implementation by the correspondence check and the oracle, not proved. *)
+(* the Stream <- Stream instance in detail (phase box, vector and indexer cell of the target) *)
 Theorem C13_copy_like_eq_partial : forall pk h a b ka pba da kb pbb db h' a' e,
   hwf h -> swf h a -> swf h b -> disjoint (footprint h a) (footprint h b) ->
   nth_error h (imol a) = Some (CIdxC ka pba da) -> nth_error h (imol b) = Some (CIdxC kb pbb db) ->
@@ -148,7 +176,7 @@ Theorem C13_copy_like_eq_partial : forall pk h a b ka pba da kb pbb db h' a' e,
   copy_like pk h a b = (h', a', e) ->
   e = None /\ a' = a /\ rdphase h' pba = rdphase h pbb /\ rdtc h' (tc a) = rdtc h (tc b) /\
   (forall c, (flow_of (chems pk ka) (rdvec h' da) c == flow_of (chems pk kb) (rdvec h db) c)%Q) /\
-  obs h' b = obs h b.
+  obs h' b = obs h b /\ nth_error h' (imol a) = Some (CIdxC ka pba da).
 Proof. exact copy_like_ss. Qed.
 Print Assumptions C13_copy_like_eq_partial.
 
@@ -159,9 +187,27 @@ Definition C13_reduce_roundtrip_statement : Prop :=
     obs_plus h' n = (let '(m, phs, rows, T, P, pr, c, i) := obs_plus h s in
                      (match phs with [_] => false | _ => m end, phs, rows, T, P, pr, c, i)).
 
-(* proved part: price, characterization factors, property package and a given ID survive; an empty ID becomes an
-   automatic one.  (Flows, phases, T, P of the reduced stream are tied by the correspondence check, which also runs
-   the real pickle.)  With the constructor as it was before pending fix C13_1 this theorem is false. *)
+(* proved in full for a single-phase Stream: the reduced stream has exactly the observable state of the original *)
+Theorem C13_reduce_roundtrip_stream : forall pk h s k pb d p v T P h' n,
+  nth_error h (imol s) = Some (CIdxC k pb d) -> nth_error h pb = Some (CPhase p) -> nth_error h d = Some (CVec v) ->
+  nth_error h (tc s) = Some (CTC T P) -> valid_phase p = true -> thermo s = k -> sid_ s <> IdNone ->
+  reduce pk h s = Ok (h', n) -> obs_plus h' n = obs_plus h s.
+Proof. exact reduce_stream. Qed.
+Print Assumptions C13_reduce_roundtrip_stream.
+
+(* ... and for a MultiStream holding one phase (it comes back as a single-phase Stream with the same phase, flows,
+   T, P, price, characterization factors and ID) *)
+Theorem C13_reduce_roundtrip_one_phase_multistream : forall pk h s k p d rb vb T P h' n,
+  nth_error h (imol s) = Some (CIdxM k [p] d) -> nth_error h d = Some (CArr [rb]) -> nth_error h rb = Some (CVec vb) ->
+  nth_error h (tc s) = Some (CTC T P) -> valid_phase p = true -> thermo s = k -> sid_ s <> IdNone ->
+  reduce pk h s = Ok (h', n) ->
+  obs_plus h' n = (false, [p], [vb], T, P, price s, cf s, sid_ s).
+Proof. exact reduce_multi1. Qed.
+Print Assumptions C13_reduce_roundtrip_one_phase_multistream.
+
+(* for every stream kind: price, characterization factors, property package and a given ID survive; an empty ID
+   becomes an automatic one.  (For MultiStreams with two or more phases the flows, phases, T, P of the reduced stream
+   are tied by the correspondence check, which also runs the real pickle; not proved.)  With the constructor as it was before pending fix C13_1 this theorem is false. *)
 Theorem C13_reduce_roundtrip_partial : forall pk h s h' n, reduce pk h s = Ok (h', n) ->
   price n = price s /\ cf n = cf s /\ thermo n = thermo s /\
   sid_ n = match sid_ s with IdNone => IdAuto | x => x end.
@@ -236,4 +282,36 @@ Proof. vm_compute. repeat split; reflexivity. Qed.
 Example C13_ex_view_phase_not_shared :
   let '(st1, es) := run PK MWS ex_state [OLink 2 0 true false true; OReadMass 0; OReadMass 2] in
   es = [None; None; None] /\ mass_phases st1 (nth 0 (ss st1) dflt) = [3] /\ mass_phases st1 (nth 2 (ss st1) dflt) = [2].
+Proof. vm_compute. repeat split; reflexivity. Qed.
+
+(* the well-formedness precondition of C13_copy_like_eq holds for streams built by the constructors *)
+Example C13_ex_stream_ok : stream_ok (hp ex_state) (ex_s 0) /\ stream_ok (hp ex_state) (ex_s 1).
+Proof.
+  split.
+  - split; [eexists; eexists; vm_compute; reflexivity|].
+    assert (E : nth_error (hp ex_state) (imol (ex_s 0)) = Some (CIdxC 0 1 2)) by (vm_compute; reflexivity). rewrite E.
+    split; [exists 3; split; [vm_compute; reflexivity|right; left; reflexivity]|eexists; vm_compute; reflexivity].
+  - split; [eexists; eexists; vm_compute; reflexivity|].
+    assert (E : nth_error (hp ex_state) (imol (ex_s 1)) = Some (CIdxM 0 [2; 3] 7)) by (vm_compute; reflexivity). rewrite E.
+    assert (R : rdrows (hp ex_state) 7 = [5; 6]) by (vm_compute; reflexivity). rewrite R.
+    split; [|discriminate]. constructor.
+    + exact E.
+    + vm_compute; reflexivity.
+    + split.
+      * simpl. split; [intros y [<-|[]]; lia|]. split; [intros y []|exact I].
+      * constructor; [left; reflexivity|constructor; [right; left; reflexivity|constructor]].
+    + reflexivity.
+    + repeat constructor; simpl; intuition lia.
+    + intros x [<-|[<-|[]]]; eexists; vm_compute; reflexivity.
+Qed.
+
+(* MultiStream <- Stream with phase expansion, and Stream <- MultiStream, on those states *)
+Example C13_ex_copy_like_kinds :
+  let '(st1, es) := run PK MWS ex_state [ONewS (IdName 5) 0 4 [7%Q; 0%Q; 0%Q] (300%Q) (101325%Q) 0%Q [];
+                                          OCopyLike 1 4; OCopyLike 0 3] in
+  es = [None; None; None] /\
+  o_phases (observe (hp st1) (nth 1 (ss st1) dflt) []) = [2; 3; 4] /\
+  o_rows (observe (hp st1) (nth 1 (ss st1) dflt) []) = [[0%Q; 0%Q; 0%Q]; [0%Q; 0%Q; 0%Q]; [7%Q; 0%Q; 0%Q]] /\
+  o_multi (observe (hp st1) (nth 0 (ss st1) dflt) []) = true /\
+  o_rows (observe (hp st1) (nth 0 (ss st1) dflt) []) = [[0%Q; 0%Q; 0%Q]; [1%Q; 1%Q; 0%Q]].
 Proof. vm_compute. repeat split; reflexivity. Qed.
